@@ -18,6 +18,7 @@ Rems == {<<>>, <<1>>, <<3, 1>>}
 Alphabet ==
   {Call("comment", a, "", "", <<>>, <<>>, "") : a \in {1, 2}} \cup
   {Call("edit", a, t, "", <<>>, <<>>, "") : a \in {1, 2}, t \in {"create", "last", "unknown"}} \cup
+  {CallF("editsame", 2, t, "", <<>>, <<>>, "", wf) : t \in {"create", "last"}, wf \in BOOLEAN} \cup
   {Call("title", a, "", "", <<>>, <<>>, "") : a \in {1, 2}} \cup
   {Call("status", a, "", s, <<>>, <<>>, "") : a \in {1, 2}, s \in {"open", "closed"}} \cup
   ({Call("labelf", 2, "", "", ad, rm, "") : ad \in Adds, rm \in Rems} \ {Call("labelf", 2, "", "", <<>>, <<>>, "")}) \cup
@@ -26,7 +27,7 @@ Alphabet ==
   {Call("noop", 2, "", "", <<>>, <<>>, "")}
 
 SmallAlphabet ==
-  {Call("comment", 2, "", "", <<>>, <<>>, ""), Call("edit", 2, "create", "", <<>>, <<>>, ""), Call("edit", 1, "last", "", <<>>, <<>>, ""),
+  {Call("comment", 2, "", "", <<>>, <<>>, ""), Call("edit", 2, "create", "", <<>>, <<>>, ""), Call("edit", 1, "last", "", <<>>, <<>>, ""), CallF("editsame", 2, "create", "", <<>>, <<>>, "", TRUE),
    Call("title", 2, "", "", <<>>, <<>>, ""), Call("status", 1, "", "closed", <<>>, <<>>, ""),
    Call("labelf", 2, "", "", <<2, 1>>, <<>>, ""), Call("labelf", 2, "", "", <<1, 1>>, <<1>>, ""), Call("label", 2, "", "", <<2, 1>>, <<1>>, ""),
    Call("label", 2, "", "", <<>>, <<1>>, ""), Call("meta", 1, "last", "", <<>>, <<>>, "k1"), Call("meta", 1, "create", "", <<>>, <<>>, "k0"),
